@@ -1,10 +1,22 @@
 (* Correspondence case and checker for C12 (shared dynsampler registry, worker-local caches). *)
 From Refinery Require Export Lib.Base Lib.Strs_samp Model.Registry.
 
+(* collector-level reload scenario on the real InMemCollector with ro_workers workers: every worker
+   decides a trace of one environment (ro_before), then the real reloadConfigs runs; in the middle of
+   it (between its steps) worker ro_actor runs its reload branch if a signal is already pending
+   (ro_mid_handled) and decides another trace (ro_mid); afterwards every worker runs its reload branch
+   if a signal is pending and decides again (ro_after).  Instances numbered by first-seen pointer. *)
+Record robs := {
+  ro_workers : N; ro_actor : N; ro_def : ddef;
+  ro_mid_handled : bool;
+  ro_before : list (option N); ro_mid : option N; ro_after : list (option N)
+}.
+
 Record case := {
   c_cfg : econfig;                        (* rules in force at the start *)
   c_ops : list wop;
-  c_obs : list (list (option N))          (* per op: instance behind each slot, numbered by first-seen pointer *)
+  c_obs : list (list (option N));         (* per op: instance behind each slot, numbered by first-seen pointer *)
+  c_reload : option robs
 }.
 
 (* ---- canonical numbering by first occurrence ---- *)
@@ -91,7 +103,37 @@ Definition pair_codes (p q : label * N) : codes :=
 Fixpoint all_pairs {A} (f : A -> A -> codes) (l : list A) : codes :=
   match l with [] => [] | x :: r => flat_map (f x) r ++ all_pairs f r end.
 
+(* ---- collector-level reload scenario ---- *)
+Definition ro_name : str := u "prod".
+Definition ro_cfg (r : robs) : econfig := [(ro_name, EDyn (ro_def r)); (u "__default__", EDet)].
+Definition ro_ws (r : robs) : list N := map N.of_nat (seq 0 (N.to_nat (ro_workers r))).
+
+(* the model of the reload as the source orders it: ClearDynsamplers, then the signals *)
+Definition ro_model (r : robs) : list (list (option N)) :=
+  wrun {| w_f := finit; w_cfg := ro_cfg r; w_cache := [] |}
+       (map (fun w => WGet w ro_name) (ro_ws r) ++
+        reload_schedule true (ro_cfg r) [WGet (ro_actor r) ro_name]
+                        (flat_map (fun w => [WWorkerReload w; WGet w ro_name]) (ro_ws r))).
+
+Definition ro_impl (r : robs) : list (option N) := ro_before r ++ [ro_mid r] ++ ro_after r.
+
+Definition reload_agrees (r : robs) : bool :=
+  negb (ro_mid_handled r) &&
+  list_eqb oid_eqb (renum (concat (ro_model r))) (renum (ro_impl r)).
+
+Definition distinct_ids (l : list (option N)) : list N :=
+  nodup N.eq_dec (flat_map (fun o => match o with Some i => [i] | None => [] end) l).
+
+Definition reload_codes (r : robs) : codes :=
+  (* 15: after the reload the workers (all of which have processed it) do not share one instance *)
+  (if (length (distinct_ids (ro_after r)) <=? 1)%nat then [] else [15%N]) ++
+  (* 14: an instance of the previous generation is still in use after every worker processed the reload *)
+  (if existsb (fun i => existsb (N.eqb i) (distinct_ids (ro_before r))) (distinct_ids (ro_after r)) then [14%N] else []) ++
+  (* 16: a worker could run its reload branch before the registry was cleared *)
+  (if ro_mid_handled r then [16%N] else []).
+
 Definition check (c : case) : codes :=
   let ls := labels 0%N (c_cfg c) [] (c_ops c) in
-  (if model_agrees c then [] else [code_mismatch]) ++
-  nodup N.eq_dec (all_pairs pair_codes (zip_some (concat ls) (concat (c_obs c)))).
+  (if model_agrees c && match c_reload c with Some r => reload_agrees r | None => true end then [] else [code_mismatch]) ++
+  nodup N.eq_dec (all_pairs pair_codes (zip_some (concat ls) (concat (c_obs c)))) ++
+  match c_reload c with Some r => reload_codes r | None => [] end.
